@@ -334,6 +334,14 @@ public:
             }
         }
         double dt = now_s() - t0;
+        // a fixed local port (picked a moment ago, then released) can be taken by another process before
+        // XCM binds it: every IPv4 attempt then fails at bind(), before any connect()
+        if (use_local == 3 && result_errno > 0 && sh_connect_log_len() == 0 && (result_errno == EADDRINUSE || result_errno == EAFNOSUPPORT || result_errno == EINVAL)) {
+            c.cls("inconclusive:fixed-local-port-taken");
+            x_close(S);
+            g_l.drain();
+            return Outcome::pass();
+        }
         // ---- judge
         Outcome o = judge(c, S, tp, algo, ex.connect, ex.targets, ex.errs, ex.min_t, ex.max_t, ex.log4, ex.log6, result_errno, dt, laddr, lport, M);
         x_close(S);
